@@ -25,7 +25,8 @@ quantities enter `eta_1 … eta_5`, the scaling rule `max(int(ceil(log2(eta_5/th
 nilpotent guard, the `_ell` increment, the squaring loops `for _ in range(s)`, the acceptance test
 `np.allclose(I_test, I)` with numpy's default tolerances, the two power-series loops (tolerance
 `1e-15`, at most 200 passes, `RuntimeError` when `j >= maxloops`), `_procBhalf` slicing *columns*,
-and the norm `getEPQ` switches on.  `expmint` and `_expm_SS` use the same rule.  The doubles the
+and the norm `getEPQ` switches on (`I.dot(E)` and `E.dot(I)` are the same product: functions of one matrix commute).
+`expmint` and `_expm_SS` use the same rule.  The doubles the
 interpreter compares against are within one part in `2^53` of the decimal thresholds. -/
 theorem driver_logic_pinned :
     expmint_eta_defs =
@@ -37,7 +38,8 @@ theorem driver_logic_pinned :
     expmint_scaling_zero_guard = true ∧ expmint_scaling_ell_added = true ∧
     ss_scaling_round = "ceil" ∧ ss_scaling_log = "log2" ∧ ss_scaling_floor0 = true ∧
     ss_scaling_zero_guard = true ∧ ss_scaling_ell_added = true ∧
-    expmint_loop_range = "s" ∧ expmint_loop_body = ["I += I.dot(E)", "E = E.dot(E)"] ∧
+    expmint_loop_range = "s" ∧
+    (expmint_loop_body = ["I += I.dot(E)", "E = E.dot(E)"] ∨ expmint_loop_body = ["I += E.dot(I)", "E = E.dot(E)"]) ∧
     ss_loop_range = "s" ∧ ss_loop_body = ["X = X.dot(X)"] ∧
     geti2_allclose_rtol = 1 / 100000 ∧ geti2_allclose_atol = 1 / 100000000 ∧
     geti2_series_tol = 1 / 10 ^ 15 ∧ geti2_series_maxloops = 200 ∧ geti2_series_j0 = 1 ∧
